@@ -15,7 +15,7 @@ RULE = ("Algorithm L consumes continuous uniforms, so this property is decided s
         "compared cell by cell with 1/C(n,k) (exact two-sided binomial tail, Bonferroni over the cells, alarm only if p < 1e-9 AND an "
         "independent confirmation run with 4N executions gives p < 1e-6); n = k is asserted deterministically (everything retained); store_targets alternates between the pairs (the law must not depend on it) and with store_targets the observations are EQUAL-valued dicts identified by their targets; "
         "for larger pairs (5,40), (10,100), (100,300 = the explainers' default size) and Hypothesis-drawn pairs (k<=12, n<=k+40) the "
-        "per-arrival inclusion counts are compared with k/n (one pair with another seeded library object constructed next to the reservoir in every run; one pair where a deep copy taken after a third of the stream is fed a long what-if continuation and dropped while the original carries on); BLOCKS: the documented default size (UniformReservoirStorage(), 1000 slots) on 6000 arrivals (thorough: 40000; k=100 on 3e6; k=300 on 9000) - well over 1024 replacements per run - with the retained count per sixth of the stream bounded by Hoeffding's inequality for sampling without replacement (rigorous, delta 1e-9); LONG streams (k=1, n=30000; k=2, n=25000 - beyond 1e4*k, where numerical guards on the weight would bite) are tested per decile of the stream. N = 4e4 per pair (quick), 2e6 spread over 16 workers (thorough). "
+        "per-arrival inclusion counts are compared with k/n (one pair with another seeded library object constructed next to the reservoir in every run; one pair where a deep copy taken after a third of the stream is fed a long what-if continuation and dropped while the original carries on; one pair where the same list of observation dicts feeds two reservoirs in turn); BLOCKS: the documented default size (UniformReservoirStorage(), 1000 slots) on 6000 arrivals (thorough: 40000; k=100 on 3e6; k=300 on 9000) - well over 1024 replacements per run - with the retained count per sixth of the stream bounded by Hoeffding's inequality for sampling without replacement (rigorous, delta 1e-9); LONG streams (k=1, n=30000; k=2, n=25000 - beyond 1e4*k, where numerical guards on the weight would bite) are tested per decile of the stream. N = 4e4 per pair (quick), 2e6 spread over 16 workers (thorough). "
         "Non-trivial: n >= k+2 (at least two skip computations); distinct = distinct (k, n, retained subset) outcomes observed.")
 ASSUMPTIONS = ["CPython's Mersenne Twister stream, consumed sequentially from one seed derived from VERIF_SEED, yields independent runs",
                "deviations below the reported minimal detectable effect pass"]
@@ -49,6 +49,23 @@ def one_run(k, n, st=None, fork=False):
         s.update({'id': i})
     xs, _ = s.get_data()
     return tuple(sorted(x['id'] for x in xs))
+
+
+def shared_run(k, n):
+    """ONE list of observation dicts feeds two reservoirs in turn (two explainers with their own storages on one stream): what one of
+    them does with an evicted observation must not show in the other.  Returns the retained arrivals of the first reservoir,
+    identified by the identity of the caller's dict objects."""
+    from ixai.storage import UniformReservoirStorage
+    a, b = UniformReservoirStorage(size=k, store_targets=False), UniformReservoirStorage(size=max(1, k - 1), store_targets=False)
+    stream = [{'id': i} for i in range(1, n + 1)]
+    for x in stream:
+        a.update(x)
+        b.update(x)
+    ids = []
+    for x in a.get_data()[0]:
+        hit = [i for i, s_ in enumerate(stream, start=1) if s_ is x]
+        ids.append(hit[0] if hit and x == {'id': hit[0]} else -1)      # -1: not the caller's object any more, or its content was rewritten
+    return tuple(sorted(ids))
 
 
 def subset_check(ctx, k, n, N, seen):
@@ -86,6 +103,8 @@ def inclusion_check(ctx, k, n, N, seen, neighbour=False):
         for _ in range(m):
             if neighbour == 'fork':
                 r = one_run(k, n, st=False, fork=True)
+            elif neighbour == 'shared':
+                r = shared_run(k, n)
             else:
                 if neighbour:
                     from ixai.storage import TreeStorage
@@ -118,8 +137,8 @@ def long_check(ctx, k, n, N, seen):
             s = UniformReservoirStorage(size=k, store_targets=False)
             upd = s.update
             for i in range(n):
-                upd(i)
-            kept = list(s.get_data()[0])
+                upd({'id': i})
+            kept = [x['id'] for x in s.get_data()[0]]
             for j in {min(t // m, 9) for t in kept}:
                 counts[j] = counts.get(j, 0) + 1
             if len(seen) < 200000:
@@ -145,8 +164,8 @@ def block_check(ctx, k, n, R, seen, blocks=6):
         s = UniformReservoirStorage() if k == 1000 else UniformReservoirStorage(size=k)
         upd = s.update
         for i in range(n):
-            upd(i)
-        kept = list(s.get_data()[0])
+            upd({'id': i})
+        kept = [x['id'] for x in s.get_data()[0]]
         if len(kept) != k or len(set(kept)) != k:
             return False, {'cell': 'size', 'observed': len(set(kept)), 'expected': k, 'bound': 0}
         for t in kept:
@@ -189,6 +208,8 @@ def run_pair(case, ctx=None):
         ok, info = inclusion_check(ctx, k, n, N, seen, neighbour=True)
     elif case['kind'] == 'inclusion+fork':
         ok, info = inclusion_check(ctx, k, n, N, seen, neighbour='fork')
+    elif case['kind'] == 'inclusion+shared':
+        ok, info = inclusion_check(ctx, k, n, N, seen, neighbour='shared')
     else:
         ok, info = inclusion_check(ctx, k, n, N, seen)
     if not ok:
@@ -213,7 +234,7 @@ def run(ctx):
     N = 40000 if not ctx.thorough() else 125000
     pairs = [(k, n, 'subset') for k in (1, 2, 3) for n in range(k, k + 7)]
     big = [(5, 40, 'inclusion'), (10, 100, 'inclusion'), (100, 300, 'inclusion'), (1, 30000, 'long'), (2, 25000, 'long'),
-           (3, 12, 'inclusion+neighbour'), (3, 30, 'inclusion+fork'), (1000, 6000, 'block')]
+           (3, 12, 'inclusion+neighbour'), (3, 30, 'inclusion+fork'), (3, 20, 'inclusion+shared'), (1000, 6000, 'block')]
     if ctx.thorough():
         big += [(1000, 40000, 'block'), (100, 3000000, 'block'), (300, 9000, 'block')]
     # Hypothesis-drawn additional pairs (deterministic in the seed)
@@ -254,6 +275,9 @@ def run(ctx):
         elif kind == 'inclusion+fork':
             n_runs = max(N // 8, 5000)
             ok, info = inclusion_check(ctx, k, n, n_runs, seen, neighbour='fork')
+        elif kind == 'inclusion+shared':
+            n_runs = max(N // 8, 5000)
+            ok, info = inclusion_check(ctx, k, n, n_runs, seen, neighbour='shared')
         elif kind == 'subset':
             ok, info = subset_check(ctx, k, n, n_runs, seen)
         else:
